@@ -137,13 +137,14 @@ theorem stepKvs_sim (A : Prop) (one₁ one₂ : Registry → JV → Step)
           | panic => rfl
           | outside => rfl
 
-theorem stepFields_sim (A : Prop) (P : GoType → Prop) (setv₁ setv₂ : Registry → JV → GoType → IdxEntry → Step)
+theorem stepFields_sim (A : Prop) (P : GoType → Prop) (zero : GoType → GoVal)
+    (setv₁ setv₂ : Registry → JV → GoType → IdxEntry → Step)
     (t : GoType) (vm : List (Bytes × JV))
     (hT : ∀ idx ft, typeAt t idx = some ft → P ft)
     (h : ∀ r r₂ m ft e, I r → P ft → I (setv₁ r m ft e).reg ∧ (A → (setv₁ r m ft e).slot = (setv₂ r₂ m ft e).slot)) :
     ∀ (idxs : List (Bytes × IdxEntry)) (r r₂ : Registry) (cur : GoVal), I r →
-      I (stepFields setv₁ t vm r idxs cur).reg ∧
-        (A → (stepFields setv₁ t vm r idxs cur).slot = (stepFields setv₂ t vm r₂ idxs cur).slot) := by
+      I (stepFields zero setv₁ t vm r idxs cur).reg ∧
+        (A → (stepFields zero setv₁ t vm r idxs cur).slot = (stepFields zero setv₂ t vm r₂ idxs cur).slot) := by
   intro idxs
   induction idxs with
   | nil => intro r r₂ cur hr; exact ⟨hr, fun _ => rfl⟩
@@ -151,17 +152,17 @@ theorem stepFields_sim (A : Prop) (P : GoType → Prop) (setv₁ setv₂ : Regis
     intro r r₂ cur hr
     obtain ⟨k, e⟩ := ke
     simp only [stepFields]
-    cases hta : typeAt t e.index with
-    | none => exact ⟨hr, fun _ => rfl⟩
-    | some ft =>
+    cases fieldDatum vm k e with
+    | none => exact ih r r₂ cur hr
+    | some m =>
       simp only
-      cases fieldDatum vm k e with
-      | none => exact ih r r₂ cur hr
-      | some m =>
-        simp only
-        by_cases hn : isNull m = true
-        · simp only [hn, ↓reduceIte]; exact ih r r₂ cur hr
-        · simp only [hn, Bool.false_eq_true, ↓reduceIte]
+      by_cases hn : isNull m = true
+      · simp only [hn, ↓reduceIte]; exact ih r r₂ cur hr
+      · simp only [hn, Bool.false_eq_true, ↓reduceIte]
+        cases hta : typeAt t e.index with
+        | none => exact ⟨hr, fun _ => rfl⟩
+        | some ft =>
+          simp only
           by_cases hro : readOnlyAt t e.index = true
           · simp only [hro, ↓reduceIte]; exact ⟨hr, fun _ => trivial⟩
           · simp only [hro, Bool.false_eq_true, ↓reduceIte]
@@ -214,7 +215,7 @@ theorem typeAt_her {P : GoType → Prop} (hP : Her P) : ∀ (idx : List Nat) (t 
         | cons j r2 =>
           simp only at h
           cases hx2 : x.2 with
-          | ptr e => simp [hx2] at h
+          | ptr e => simp only [hx2] at h hx; exact ih _ _ (hP.ptr e hx) h
           | _ => simp only [hx2] at h hx; exact ih _ _ hx h
     | _ => simp [typeAt] at h
 
@@ -230,18 +231,21 @@ theorem ptrStep_sim (Q : GoType → Prop) (rec₁ rec₂ : Rec) (hrec : Agree I 
     I (ptrStep rec₁ r x pe).reg ∧ (noIface pe = true → (ptrStep rec₁ r x pe).slot = (ptrStep rec₂ r₂ x pe).slot) := by
   have h := hrec r r₂ 1 x pe none hr (fun _ => hq)
   simp only [ptrStep]
-  cases h1 : rec₁ r 1 x pe none with
-  | mk s1 r1 =>
-    cases h2 : rec₂ r₂ 1 x pe none with
-    | mk s2 r2 =>
-      rw [h1, h2] at h
-      simp only at h
-      constructor
-      · cases s1 <;> exact h.1
-      · intro hn
-        have hs := h.2 (by decide) hn
-        subst hs
-        cases s1 <;> rfl
+  by_cases hnull : isNull x = true
+  · simp only [hnull, ↓reduceIte]; exact ⟨hr, fun _ => trivial⟩
+  · simp only [hnull, Bool.false_eq_true, ↓reduceIte]
+    cases h1 : rec₁ r 1 x pe none with
+    | mk s1 r1 =>
+      cases h2 : rec₂ r₂ 1 x pe none with
+      | mk s2 r2 =>
+        rw [h1, h2] at h
+        simp only at h
+        constructor
+        · cases s1 <;> exact h.1
+        · intro hn
+          have hs := h.2 (by decide) hn
+          subst hs
+          cases s1 <;> rfl
 
 theorem listFinish_sim (mk : List GoVal → GoVal) (A : Prop) (res₁ res₂ : (Option (List GoVal) × Slot) × Registry)
     (h : I res₁.2 ∧ (A → res₁.1 = res₂.1)) :
@@ -428,7 +432,7 @@ theorem recBody_sim (Q : GoType → Prop) (hQ : Her Q) (ck : Bytes) (cf₁ : Com
                   simp only
                   rw [hc.2]
                   exact stepFields_sim I (noIface (.struct name pkg fs) = true)
-                    (fun ft => Q ft ∧ (noIface (.struct name pkg fs) = true → noIface ft = true))
+                    (fun ft => Q ft ∧ (noIface (.struct name pkg fs) = true → noIface ft = true)) (zeroVal fuelZ)
                     (fun r'' m ft e => rec₁ r'' 2 m ft (some e)) (fun r'' m ft e => rec₂ r'' 2 m ft (some e))
                     (.struct name pkg fs) vm
                     (fun idx ft hta => ⟨typeAt_her hQ idx _ ft hq' hta, fun hn => typeAt_her hN idx _ ft hn hta⟩)
@@ -759,6 +763,33 @@ theorem recompose_eq_pure (b : Bool) (hQ : Her Q) (hgood : ∀ t, Q t → goodT 
   exact (recompV_sim K Q b hQ hgood hK hL ck 256 (regAfter b ck h) [] 1 j t none hinv (fun _ => hq)).2 (by decide) hn
 
 end Reg
+
+/-! ### since b19f06c every type is good -/
+
+mutual
+  /-- `indexType` succeeds for every struct type (no embedded field makes it panic any more), so the
+  hypothesis `goodT` of the simulation is always true -/
+  theorem goodT_true : ∀ (t : GoType), goodT t = true
+    | .slice e => by simp only [goodT]; exact goodT_true e
+    | .array _ e => by simp only [goodT]; exact goodT_true e
+    | .map e => by simp only [goodT]; exact goodT_true e
+    | .ptr e => by simp only [goodT]; exact goodT_true e
+    | .struct n p fs => by simp only [goodT, indexType, Option.isSome_some, Bool.true_and]; exact goodFields_true fs
+    | .bool => rfl
+    | .int _ => rfl
+    | .float _ => rfl
+    | .str => rfl
+    | .bytes => rfl
+    | .iface => rfl
+  theorem goodFields_true : ∀ (fs : List (FieldHdr × GoType)), goodFields fs = true
+    | [] => rfl
+    | (_, t) :: r => by simp only [goodFields, goodT_true t, goodFields_true r, Bool.and_self]
+end
+
+theorem eventOK_good (e : Event) : EventOK (fun t => goodT t = true) e := by
+  cases e with
+  | register t => intro n p fs _; exact goodT_true _
+  | recompose t j => exact goodT_true t
 
 /-! ### comparing values in witnesses -/
 
